@@ -1086,6 +1086,13 @@ class OrderedMultiDict(dict):
         self.clear()
         self.update_extend(state)
 
+    def __reduce__(self):
+        # Reduce to the list-of-pairs state only. The default reduction
+        # of a dict subclass also emits (key, value) items, which the
+        # copy module replays through __setitem__ after __setstate__,
+        # collapsing every key to its last value.
+        return (self.__class__, (), self.__getstate__())
+
     def _clear_ll(self):
         try:
             _map = self._map
@@ -1123,6 +1130,7 @@ class OrderedMultiDict(dict):
         Called ``addlist`` for consistency with :meth:`getlist`, but
         tuples and other sequences and iterables work.
         """
+        v = list(v)  # v may be a one-shot iterable, it is walked twice below
         if not v:
             return
         self_insert = self._insert
@@ -1201,9 +1209,10 @@ class OrderedMultiDict(dict):
             seen = set()
             seen_add = seen.add
             for k, v in E:
-                if k not in seen and k in self:
-                    del self[k]
+                if k not in seen:
                     seen_add(k)
+                    if k in self:
+                        del self[k]
                 self_add(k, v)
         for k in F:
             self[k] = F[k]
@@ -1264,7 +1273,8 @@ class OrderedMultiDict(dict):
         elif hasattr(other, 'keys'):
             for selfk in self:
                 try:
-                    other[selfk] == self[selfk]
+                    if other[selfk] != self[selfk]:
+                        return False
                 except KeyError:
                     return False
             return True
@@ -1300,6 +1310,17 @@ class OrderedMultiDict(dict):
         if default is _MISSING:
             return super_self.pop(k)
         return super_self.pop(k, default)
+
+    def popitem(self):
+        """Remove and return a ``(key, value)`` pair for the most-recently
+        inserted key, *value* being its most-recently inserted
+        value. All values under that key are removed. Raises
+        :exc:`KeyError` if the dictionary is empty.
+        """
+        if not self:
+            raise KeyError('popitem(): %s is empty' % type(self).__name__)
+        k = self.root[PREV][KEY]
+        return k, self.pop(k)
 
     def poplast(self, k=_MISSING, default=_MISSING):
         """Remove and return the most-recently inserted value under the key
